@@ -193,30 +193,31 @@ type Account struct {
 func (a *Account) Pub() []byte { return a.Priv.PublicKey().Bytes() }
 
 type World struct {
-	T         *fakeT
-	N         int
-	BC        *core.Blockchain
-	E         *neotest.Executor
-	Keys      []*keys.PrivateKey
-	Pubs      keys.PublicKeys
-	Alpha     util.Uint160
-	Comm      util.Uint160
-	AlphaS    neotest.Signer
-	CommS     neotest.Signer
-	Validator neotest.Signer
-	Payer     *Account
-	Members   []*Account // single-key accounts of the committee keys, in sorted key order
-	Accts     map[string]*Account
-	Signers   map[util.Uint160]neotest.Signer
-	Contracts map[string]*Deployed
-	order     []string
-	Root      *dao.Simple
-	H         uint32 // index of the first block after Freeze
-	TS        uint64 // its default timestamp
-	GasHash   util.Uint160
-	NeoHash   util.Uint160
-	GasID     int32
-	NeoID     int32
+	NoScriptOverride bool // Freeze leaves the deployed executables alone (see ScriptOverride)
+	T                *fakeT
+	N                int
+	BC               *core.Blockchain
+	E                *neotest.Executor
+	Keys             []*keys.PrivateKey
+	Pubs             keys.PublicKeys
+	Alpha            util.Uint160
+	Comm             util.Uint160
+	AlphaS           neotest.Signer
+	CommS            neotest.Signer
+	Validator        neotest.Signer
+	Payer            *Account
+	Members          []*Account // single-key accounts of the committee keys, in sorted key order
+	Accts            map[string]*Account
+	Signers          map[util.Uint160]neotest.Signer
+	Contracts        map[string]*Deployed
+	order            []string
+	Root             *dao.Simple
+	H                uint32 // index of the first block after Freeze
+	TS               uint64 // its default timestamp
+	GasHash          util.Uint160
+	NeoHash          util.Uint160
+	GasID            int32
+	NeoID            int32
 	// TrackNative lists native-contract storage items that are part of the canonical state
 	// (GAS/NEO balances of the accounts a property observes).
 	TrackNative []NativeKey
@@ -459,7 +460,7 @@ func (w *World) Freeze() {
 	// another executable (the shipped one), so that states of both worlds are comparable
 	for name, c := range ScriptOverride {
 		d, ok := w.Contracts[name]
-		if !ok {
+		if !ok || w.NoScriptOverride {
 			continue
 		}
 		cs := w.BC.GetContractState(d.Hash)
@@ -478,6 +479,15 @@ func (w *World) Freeze() {
 
 // ScriptOverride maps contract names to executables that replace the deployed ones at Freeze.
 var ScriptOverride = map[string]*Compiled{}
+
+// updateTarget is the executable a contract is updated to in the upgrade grid: the shipped one in the shipped half
+// of the C15 differential, else the one compiled from the sources.
+func updateTarget(name string) *Compiled {
+	if c, ok := ScriptOverride[name]; ok {
+		return c
+	}
+	return CompileDir(Repo, name)
+}
 
 // Track adds the GAS (and optionally NEO) balance of h to the canonical state.
 func (w *World) Track(tag string, h util.Uint160, neo bool) {
